@@ -84,8 +84,12 @@ def check_ast(case, ev):
     reals = []
     m = call(build.model, spec, what="constructors")
     if call(m.errors, what="errors()"):
-        ev.count("discarded_invalid")
-        return
+        if not case.get("judge_anyway"):
+            ev.count("discarded_invalid")
+            return
+        # the enumerated formulas have pairwise distinct arguments; validation rejects some of them for reasons of id
+        # generation (XNor(a, All(a)) ...), but C04 speaks about what the constructors evaluate to, not about validation
+        ev.count("rejected_by_validation_but_judged")
     reals.append(("constructors", m))
     if json_expressible(spec):
         doc = json.loads(json.dumps(to_json_doc(spec)))
@@ -140,13 +144,13 @@ def exhaustive(slice_i, n_slices):
     i = 0
     for n in d1:
         if i % n_slices == slice_i:
-            yield {"model": n}
+            yield {"model": n, "judge_anyway": True}
         i += 1
     for n in _nodes_over(_leafs() + d1):
         if all(c["k"] == "leaf" for c in n["c"]):
             continue
         if i % n_slices == slice_i:
-            yield {"model": n}
+            yield {"model": n, "judge_anyway": True}
         i += 1
 
 
